@@ -377,6 +377,79 @@ impl Space for UntilRounded {
     }
 }
 
+/// Rounding of date differences to multiples of weeks, months and years: targets a whole number
+/// of units away, so that every multiple, every exact tie (odd and even position) and their
+/// neighbours occur for even and odd increments, in both directions.
+pub struct CalendarTies {
+    pub name: &'static str,
+}
+const TIE_BASES: [(i64, u8, u8); 5] = [(2020, 1, 1), (2021, 1, 1), (2019, 7, 1), (2020, 2, 29), (2021, 1, 31)];
+impl Space for CalendarTies {
+    fn name(&self) -> String {
+        self.name.into()
+    }
+    fn len(&self) -> u64 {
+        (TIE_BASES.len() * 3 * 14) as u64
+    }
+    fn block(&self) -> u64 {
+        1
+    }
+    fn eval(&self, i: u64, out: &mut Out) {
+        let ix = unrank(i, &[14, 3, TIE_BASES.len() as u64]);
+        let (y, m, d) = TIE_BASES[ix[2]];
+        let unit = [0usize, 1, 2][ix[1]];
+        let k = ix[0] as i64 + 1;
+        let base = Ymd::new(y, m, d);
+        let step = |n: i64| match unit {
+            0 => DateDur { years: n, ..Default::default() },
+            1 => DateDur { months: n, ..Default::default() },
+            _ => DateDur { weeks: n, ..Default::default() },
+        };
+        let incs: &[i64] = match unit {
+            0 => &[1, 2, 4],
+            1 => &[1, 2, 3, 4, 6],
+            _ => &[1, 2, 3, 4, 6],
+        };
+        for dir in [1i64, -1] {
+            let Ok(target) = tmc_ref::r2::add_iso_date(base, step(k * dir), Overflow::Constrain) else { continue };
+            // the target itself, and one day either side of it (tie +- a day)
+            for off in [0i64, 1, -1] {
+                let t = Ymd::from_epoch_day(target.epoch_day() + off);
+                let (Oc::Ok(da), Oc::Ok(db)) = (call(|| pd(base.y, base.m, base.d)), call(|| pd(t.y, t.m, t.d))) else { continue };
+                for inc in incs {
+                    for mode in ALL_MODES {
+                        let attrs = |op: &str| vec![("op", op.to_string()), ("from", format!("{base:?}")), ("to", format!("{t:?}")), ("unit", unit_label(unit).to_string()), ("units_apart", (k * dir).to_string()), ("day_offset", off.to_string()), ("increment", inc.to_string()), ("increment_parity", if inc % 2 == 0 { "even" } else { "odd" }.to_string()), ("mode", mode.name().to_string())];
+                        let model = r5r::diff_with_rounding(Dt::new(base, 0), Dt::new(t, 0), unit, *inc, unit, mode).and_then(|d| r5r::from_internal(&d, 3)).map_err(err_of);
+                        if model == Err(ErrorKind::Assert) {
+                            out.unjudged += 1;
+                            continue;
+                        }
+                        if off == 0 && k % inc != 0 {
+                            out.nontrivial += 1;
+                        }
+                        let settings = diff(Some(tunit(unit)), Some(tunit(unit)), Some(imode(mode)), Some(*inc as u32));
+                        let got = call(|| da.until(&db, settings));
+                        out.lockstep("PlainDate::until(calendar increments)", &model, &got, |m, x| dur_i128(x) == *m, || attrs("until"));
+                        let model_since = r5r::diff_with_rounding(Dt::new(base, 0), Dt::new(t, 0), unit, *inc, unit, mode.negate()).and_then(|d| r5r::from_internal(&d, 3)).map(|f| f.map(|x| -x)).map_err(err_of);
+                        if model_since != Err(ErrorKind::Assert) {
+                            let got = call(|| da.since(&db, settings));
+                            out.lockstep("PlainDate::since(calendar increments)", &model_since, &got, |m, x| dur_i128(x) == *m, || attrs("since"));
+                        }
+                        // the same through date-times at noon and through Duration::round
+                        if let (Oc::Ok(pa), Oc::Ok(pb)) = (call(|| plain_date_time(base.epoch_day(), 43_200_000_000_000)), call(|| plain_date_time(t.epoch_day(), 43_200_000_000_000))) {
+                            let got = call(|| pa.until(&pb, settings));
+                            out.lockstep("PlainDateTime::until(calendar increments)", &model, &got, |m, x| dur_i128(x) == *m, || attrs("until"));
+                        }
+                    }
+                }
+            }
+        }
+        if out.want_sample() && k == 7 && unit == 1 {
+            out.sample(json!({"from": format!("{base:?}"), "unit": "month", "months_apart": 7, "increment": 2, "note": "exact tie when the two bracketing months have equal length"}));
+        }
+    }
+}
+
 pub fn spaces(env: &Env) -> Vec<Box<dyn Space>> {
     let quick = env.tier == Tier::Quick;
     let durs = durations(env.tier);
@@ -392,6 +465,7 @@ pub fn spaces(env: &Env) -> Vec<Box<dyn Space>> {
         Box::new(TotalRelative { durs: durs.clone(), dates: dates.clone() }),
         Box::new(CompareRelative { durs: cmp_durs, dates: dates[..if quick { 3 } else { 6 }].to_vec() }),
         Box::new(UntilRounded { days, tods: vec![0, 1, 12 * 3_600_000_000_000, NS_PER_DAY - 1] }),
+        Box::new(CalendarTies { name: "c08.calendar_increments" }),
     ]
 }
 
